@@ -71,7 +71,8 @@ TEXTS = {
     'C09': {'text': 'Merges are applied inside Apply (one action under the block latch); ReadBack against the per-row fold in apply '
                     'order is model-checked for 2 concurrent writers; controlled schedules of 2-4 writers merging (additive and '
                     'order-sensitive affine merge, string concat, all numeric types, records) into overlapping rows are validated: '
-                    'every in-latch logger event must carry the absolute value the specification computes from the apply order; some transactions give up '
+                    'every in-latch logger event must carry the absolute value the specification computes from the apply order (in half of the scenarios the real values and deltas '
+                    'are the model\'s multiplied by 2^33+1 - beyond 32 bits - which the additive merge carries through unchanged); some transactions give up '
                     '(their merges are applied by nobody). A second family (par/c09) '
                     'runs 4-6 goroutines in real parallelism (no scheduler; user merge functions that take tens of microseconds) merging numbers, records and '
                     'strings into rows of 2-3 blocks: commits into different blocks overlap inside Apply; the in-latch logger gives the apply order per block.',
@@ -123,7 +124,7 @@ TEXTS = {
             'note': _NOTE, 'technique': _T},
     'C16': {'text': 'SortCoherent is an invariant (model-checked with a sorted index over a string column); every dump logs the Ascend '
                     'sequence with the value read at each stop: it must be a permutation of the rows holding a value, non-decreasing '
-                    'in the specification\'s own lexicographic order. MC_Schema model-checks a sorted index created after the data (back-fill) between two '
+                    'in the specification\'s own lexicographic order (every dump also iterates over a narrow selection - the rows whose value in another column equals k). MC_Schema model-checks a sorted index created after the data (back-fill) between two '
                     'transactions; the sorted column may be dropped (the index is then detached) and re-created; merges with and without a '
                     'user merge function.',
             'note': _NOTE, 'technique': _T},
